@@ -1543,4 +1543,223 @@ example :
     orderClause cfg [.fcall 0, .fret 0, .fcall 1, .fret 1, .msg (.snd 3), .msg (.ret 3), .msg (.beg 3)] = some (.fanout 0 1 3) := by
   decide
 
+/-! ### the order of entering the handler queue, on the model
+
+The model has one FIFO between `write` and `disp`; the order in which the messages of a pair pass through it is
+the order of its `disp` labels.  Showing every `disp i` to the monitor as `enq i` (`fvisibleQ`), the monitor —
+both its handler-order clauses and the queue-order clause — accepts every run of the family. -/
+
+def FLabel.visQ : FLabel → Option FEv
+  | .msg (.disp i) => some (.enq i)
+  | l => l.vis
+
+def fvisibleQ (ls : List FLabel) : List FEv := ls.filterMap FLabel.visQ
+
+def FMon.stepQ (cfg : Cfg) (m : FMon) (l : FLabel) : FMon :=
+  match l.visQ with
+  | some e => FMon.step cfg m e
+  | none => m
+
+theorem ffoldl_visibleQ (cfg : Cfg) (m : FMon) (ls : List FLabel) :
+    (fvisibleQ ls).foldl (FMon.step cfg) m = ls.foldl (FMon.stepQ cfg) m := by
+  induction ls generalizing m with
+  | nil => rfl
+  | cons l ls ih =>
+    simp only [fvisibleQ, List.filterMap_cons, List.foldl_cons, FMon.stepQ]
+    cases hv : l.visQ with
+    | none => simp [← ih, fvisibleQ]
+    | some e => simp [← ih, fvisibleQ]
+
+theorem stepQ_of_not_disp (cfg : Cfg) (m : FMon) (l : FLabel) (h : ∀ i, l ≠ .msg (.disp i)) :
+    m.stepQ cfg l = m.stepL cfg l := by
+  cases l with
+  | msg l0 =>
+    cases l0 <;> first | rfl | exact absurd rfl (h _)
+  | fcall g => rfl
+  | ferr c => rfl
+  | fret g => rfl
+
+/-- `i` has left the queue of its pair. -/
+def Beyond (s : State) (i : Nat) : Prop := s.phase i ≠ .unsent ∧ s.phase i ≠ .sending ∧ s.phase i ≠ .queued
+
+theorem step_beyond_only_disp {kind : Nat → Kind} {s s' : State} {l : Label} (h : step kind s l = some s')
+    {i : Nat} (hb : Beyond s' i) : Beyond s i ∨ l = .disp i := by
+  rcases beyond_has_disp (kind := kind) (s := s) (s' := s') (ls := [l]) (by simp [run, h]) hb with q | q
+  · left; exact q
+  · right; simp only [List.mem_singleton] at q; exact q.symm
+
+theorem stepL_enqd (cfg : Cfg) (m : FMon) (l : FLabel) : (m.stepL cfg l).enqd = m.enqd := by
+  cases l with
+  | msg l0 =>
+    cases l0 <;> try rfl
+    case start j =>
+      rw [stepL_start]
+      simp only [FMon.step]
+      split
+      · rfl
+      · split <;> rfl
+  | fcall g => rfl
+  | ferr c => rfl
+  | fret g => rfl
+
+theorem stepL_bodies (cfg : Cfg) (m : FMon) (l : FLabel) :
+    (m.stepL cfg l).bodies = m.bodies ∨ ∃ ps j, l = .msg (.bsend ps j) ∧ (m.stepL cfg l).bodies = m.bodies ++ ps.map fun k => (k, j) := by
+  cases l with
+  | msg l0 =>
+    cases l0 <;> try (left; rfl)
+    case bsend ps j => right; exact ⟨ps, j, rfl, rfl⟩
+    case start j =>
+      left
+      rw [stepL_start]
+      simp only [FMon.step]
+      split
+      · rfl
+      · split <;> rfl
+  | fcall g => left; rfl
+  | ferr c => left; rfl
+  | fret g => left; rfl
+
+structure QSim (t : Topo) (S : FState) (m : FMon) : Prop where
+  binv : ∀ p, BInv (S.peers p)
+  enq : ∀ p i, Beyond (S.peers p) i → i ∈ m.enqd
+  bodies : ∀ x, x ∈ m.bodies → (x.1, x.2) ∈ (S.peers (t.pair x.2)).after
+  ok : m.badEnq = none
+
+theorem qsim_step {kind : Nat → Kind} {t : Topo} {S S' : FState} {l : FLabel} {m : FMon}
+    (hK : FInvK kind t S) (hq : QSim t S m) (hs : fstep (step kind) t S l = some S') :
+    QSim t S' (m.stepQ (t.cfg kind) l) := by
+  have hbinv : ∀ p, BInv (S'.peers p) := by
+    intro p
+    rcases fstep_peers hs p with ⟨l0, _, _, hp⟩ | ⟨_, hp⟩
+    · exact binv_step (hK.pinv p) (hq.binv p) hp
+    · rw [hp]; exact hq.binv p
+  by_cases hd : ∃ j, l = .msg (.disp j)
+  · obtain ⟨j, rfl⟩ := hd
+    -- the model dispatches `j`: the monitor sees `enq j`
+    have hp : step kind (S.peers (t.pair j)) (.disp j) = some (S'.peers (t.pair j)) := by
+      rcases fstep_peers hs (t.pair j) with ⟨l1, e, _, h1⟩ | ⟨h1, _⟩
+      · cases e; exact h1
+      · exact absurd rfl (h1 (.disp j) rfl)
+    have hinv := hK.pinv (t.pair j)
+    have hb := hq.binv (t.pair j)
+    -- `j` is the head of the queue
+    have hhead : ∃ q, (S.peers (t.pair j)).queue = j :: q := by
+      simp only [step] at hp
+      split at hp
+      · rename_i hd q _ hqueue
+        split at hp <;> simp at hp
+        rename_i e; subst e
+        exact ⟨q, hqueue⟩
+      · simp at hp
+    obtain ⟨q, hqueue⟩ := hhead
+    have hnd : j ∉ q := by have := hinv.qnodup; rw [hqueue] at this; exact (List.nodup_cons.1 this).1
+    have hph : (S.peers (t.pair j)).phase j = .queued := (hinv.qmem j).1 (by rw [hqueue]; simp)
+    have hfind : (m.bodies.find? fun p => p.2 == j && !m.enqd.contains p.1) = none := by
+      rw [List.find?_eq_none]
+      intro x hx
+      simp only [Bool.and_eq_true, beq_iff_eq, Bool.not_eq_true', List.contains_eq_mem, decide_eq_false_iff_not, not_and, Decidable.not_not]
+      intro e
+      have haft := hq.bodies x hx
+      rw [e] at haft
+      obtain ⟨h1, h2⟩ := hb.ord x.1 j haft (by simp [hph]) (by simp [hph])
+      apply hq.enq (t.pair j) x.1
+      refine ⟨h1.1, h1.2, ?_⟩
+      intro hq1
+      have := h2 hph hq1
+      rw [hqueue] at this
+      exact (ahead_cons this hnd).1 rfl
+    have hstep : m.stepQ (t.cfg kind) (.msg (.disp j)) = { m with enqd := j :: m.enqd } := by
+      simp only [FMon.stepQ, FLabel.visQ, FMon.step, hq.ok, hfind]
+    rw [hstep]
+    refine ⟨hbinv, ?_, ?_, hq.ok⟩
+    · intro p i hbe
+      simp only [List.mem_cons]
+      rcases fstep_peers hs p with ⟨l1, e, _, h1⟩ | ⟨_, h1⟩
+      · cases e
+        rcases step_beyond_only_disp h1 hbe with r | r
+        · right; exact hq.enq p i r
+        · left; cases r; rfl
+      · right; rw [h1] at hbe; exact hq.enq p i hbe
+    · intro x hx
+      have := hq.bodies x hx
+      rcases fstep_peers hs (t.pair x.2) with ⟨l1, _, _, h1⟩ | ⟨_, h1⟩
+      · exact step_after_mono h1 this
+      · rw [h1]; exact this
+  · have hnd : ∀ i, l ≠ .msg (.disp i) := fun i e => hd ⟨i, e⟩
+    rw [stepQ_of_not_disp _ _ _ hnd]
+    refine ⟨hbinv, ?_, ?_, stepL_badEnq _ _ _ hq.ok⟩
+    · intro p i hbe
+      rw [stepL_enqd]
+      rcases fstep_peers hs p with ⟨l1, e, _, h1⟩ | ⟨_, h1⟩
+      · rcases step_beyond_only_disp h1 hbe with r | r
+        · exact hq.enq p i r
+        · subst e; subst r; exact absurd rfl (hnd i)
+      · rw [h1] at hbe; exact hq.enq p i hbe
+    · intro x hx
+      have mono : ∀ y : Nat × Nat, (y.1, y.2) ∈ (S.peers (t.pair y.2)).after → (y.1, y.2) ∈ (S'.peers (t.pair y.2)).after := by
+        intro y hy
+        rcases fstep_peers hs (t.pair y.2) with ⟨l1, _, _, h1⟩ | ⟨_, h1⟩
+        · exact step_after_mono h1 hy
+        · rw [h1]; exact hy
+      rcases stepL_bodies (t.cfg kind) m l with e | ⟨ps, j, rfl, e⟩
+      · rw [e] at hx; exact mono x (hq.bodies x hx)
+      · rw [e] at hx
+        simp only [List.mem_append, List.mem_map] at hx
+        rcases hx with hx | ⟨k, hk, rfl⟩
+        · exact mono x (hq.bodies x hx)
+        · have hp : step kind (S.peers (t.pair j)) (.bsend ps j) = some (S'.peers (t.pair j)) := by
+            rcases fstep_peers hs (t.pair j) with ⟨l1, e1, _, h1⟩ | ⟨h1, _⟩
+            · cases e1; exact h1
+            · exact absurd rfl (h1 (.bsend ps j) rfl)
+          exact step_bsend_after hp hk
+
+/-- `FSim` does not look at the queue-order bookkeeping. -/
+theorem fsim_congr {kind : Nat → Kind} {t : Topo} {S : FState} {m m' : FMon} (h : FSim kind t S m)
+    (h1 : m'.returned = m.returned) (h2 : m'.failed = m.failed) (h3 : m'.sentAfter = m.sentAfter)
+    (h4 : m'.finished = m.finished) (h5 : m'.bad = m.bad) : FSim kind t S m' :=
+  ⟨by rw [h1]; exact h.ret, by rw [h2]; exact h.failed, by rw [h3]; exact h.pred, by rw [h4]; exact h.fin, by rw [h5]; exact h.ok⟩
+
+theorem fsim_stepQ {kind : Nat → Kind} {t : Topo} {S S' : FState} {l : FLabel} {m : FMon}
+    (hF : FInv t S) (hK : FInvK kind t S) (hsim : FSim kind t S m) (hs : fstep (step kind) t S l = some S') :
+    FSim kind t S' (m.stepQ (t.cfg kind) l) := by
+  have h := fsim_step hF hK hsim hs
+  by_cases hd : ∃ j, l = .msg (.disp j)
+  · obtain ⟨j, rfl⟩ := hd
+    rw [stepL_disp] at h
+    apply fsim_congr h <;>
+    · simp only [FMon.stepQ, FLabel.visQ, FMon.step]
+      split
+      · rfl
+      · split <;> rfl
+  · rw [stepQ_of_not_disp _ _ _ (fun i e => hd ⟨i, e⟩)]; exact h
+
+theorem qsim_run {kind : Nat → Kind} {t : Topo} {S S' : FState} {ls : List FLabel} {m : FMon}
+    (hF : FInv t S) (hK : FInvK kind t S) (hsim : FSim kind t S m) (hq : QSim t S m) (hs : frun (step kind) t S ls = some S') :
+    FSim kind t S' (ls.foldl (FMon.stepQ (t.cfg kind)) m) ∧ QSim t S' (ls.foldl (FMon.stepQ (t.cfg kind)) m) := by
+  induction ls generalizing S m with
+  | nil => simp [frun] at hs; subst hs; exact ⟨hsim, hq⟩
+  | cons l ls ih =>
+    obtain ⟨M, h1, h2⟩ := frun_cons_some hs
+    exact ih (finv_step (pairOK_step kind) hF h1) (finvK_step hF hK h1) (fsim_stepQ hF hK hsim h1) (qsim_step hK hq h1) h2
+
+/-- Bridging theorem with the queue order: for ALL addressings, classifications and label lists that are runs
+of the family, the monitor — handler-order clauses AND the clause on the order of entering the handler queue —
+accepts the run's visible part with every `disp i` shown as `enq i`. -/
+theorem fan_monitor_accepts_runs_with_queue_order {kind : Nat → Kind} {t : Topo} {ls : List FLabel} {S : FState}
+    (h : frun (step kind) t finit ls = some S) : fholdsOn (t.cfg kind) (fvisibleQ ls) = true := by
+  have hsim : FSim kind t finit ({} : FMon) := ⟨by simp, by simp [finit], by simp, by intro i; simp [finit, init], rfl⟩
+  have hq : QSim t finit ({} : FMon) :=
+    ⟨fun _ => binv_init, by intro p i hb; simp [Beyond, finit, init] at hb, by simp, rfl⟩
+  obtain ⟨h1, h2⟩ := qsim_run (finv_init t) (finvK_init kind t) hsim hq h
+  simp [fholdsOn, fmonitor, ffoldl_visibleQ, h1.ok, h2.ok]
+
+/-- The clause is not vacuous: the log of C03-m11 — body `[call 0, notification 1]`, the notification entering
+the queue first — is rejected; in body order it is accepted. -/
+theorem body_overtaken_breaks_order :
+    let cfg : Cfg := { kind := fun i => if i = 0 then .call else .note, pair := fun _ => 0, copies := fun _ => [], grp := fun _ => none }
+    orderClause cfg [.msg (.snd 0), .msg (.bsnd [0] 1), .enq 1, .msg (.beg 1), .msg (.fin 1), .enq 0, .msg (.beg 0), .msg (.fin 0)]
+      = some (.bodyDispatch 0 1)
+    ∧ orderClause cfg [.msg (.snd 0), .msg (.bsnd [0] 1), .enq 0, .enq 1, .msg (.beg 1), .msg (.beg 0), .msg (.fin 0), .msg (.fin 1)] = none := by
+  constructor <;> decide
+
 end Order
